@@ -1,9 +1,29 @@
-from . import streams_tables
+from . import cli, streams_tables, streams_par
 
 ID = 'C07'
-PROPS_MODULE = 'Refine.Props.C07'
-STREAMS = [streams_tables.PART]
+PROPS_MODULE = ['Refine.Props.C07', 'Refine.Props.C07Gather']
+STREAMS = [streams_tables.PART, streams_par.GATHER_NODE, streams_par.GATHER_CELL, streams_par.GATHER_FILE,
+           cli.NPINDEP, cli.CONVERT_MPI, cli.DISTANCE_MPI, cli.INTERP_MPI]
 EXPLANATION = ('Proved over the macros generated from ref_part.h: implicit block partition is a partition of [0,N) '
                'into np contiguous blocks whose sizes differ by at most one, and ref_part_implicit returns the unique '
-               'block owner (for all N>=1, np>=1).')
-ASSUMPTIONS = ['C integer arithmetic is modelled with unbounded Int (no 32/64-bit wrap-around)']
+               'block owner (for all N>=1, np>=1). '
+               'Proved about the executable gather model Refine.Model.Par (Props/C07Gather): if every global id in '
+               '[0,N) is owned by exactly one rank, ref_gather_node writes the owners\' payloads in global-id order '
+               '0..N-1 with hit count 1 in every slot, for every chunk size >= 1, rank count and partition '
+               '(gather_node_once, gather_node_spec); the output is the same for any two chunk sizes '
+               '(gather_node_chunk_independent) and for any two distributions of the same vertex data '
+               '(gather_node_np_independent); failure is reported exactly when some id has 0 or >= 2 owners '
+               '(gather_node_fails_iff); chunk >= 1 iff reduce_byte_limit <= 0 or >= 32, otherwise the loop never '
+               'advances (chunk_positive, gather_node_hang); the owner rule of ref_cell_part makes ref_gather_cell '
+               'emit every cell of the global mesh exactly once with its tag, for every partition (gather_cell_once). '
+               'Tie: the real static ref_gather_node / ref_gather_cell and ref_gather_by_extension (.meshb) under mpiexec at np = 1,2,3,4,5,8 against '
+               'the model on generated worlds. End to end (no model side): translate / distance / interpolate / '
+               'format conversion with ref and refmpi, outputs compared with the serial run (vertices in the same '
+               'order, cell multisets with tags, fields; distance and data movement exactly, interpolation to 1e-12).')
+ASSUMPTIONS = ['C integer arithmetic is modelled with unbounded Int (no 32/64-bit wrap-around)',
+               'the gather hypothesis "every global id owned by exactly one rank" is a clause of distInv (package dist, C06)',
+               'payload addition only needs 0 + x = x = x + 0; IEEE doubles satisfy it bit-for-bit except that -0.0 is '
+               'gathered as +0.0 when np > 1 (numerically equal; the end-to-end comparison is numeric)',
+               'wall distance / interpolation values themselves (C12, C11) and MPI floating-point reductions are not '
+               'claimed exact here; only their transport (C17) and the gather',
+               'hit counts are modelled as Nat (the C adds doubles 0.0/1.0)']
